@@ -19,7 +19,7 @@ import (
 func TestMain(m *testing.M) {
 	vcore.Init("C11", "exploration",
 		"rapid histories over 2-3 sessions x 3 URRs mixing every emission site: data-plane reports and periodic reports (injected through the public NotifySessReport exactly as the netlink listener and the periodic server do, 1-3 reports per notification, also twice for one URR), "+
-			"Query URR (also twice in one message), Update URR returning a report, Remove URR, PDR removal / re-pointing that detaches the last reference, session deletion, URR re-creation after removal. "+
+			"bursts of 40-130 notifications to an SMF that answers none (all requests stay outstanding), Query URR (also twice in one message), Update URR returning a report, Remove URR, PDR removal / re-pointing that detaches the last reference, session deletion, URR re-creation after removal. "+
 			"Oracle: for each URR incarnation the UR-SEQN values observed at the SMF, in arrival order over Session Report Requests, Modification Responses and the Deletion Response, are exactly 0,1,...,n-1; incarnations and sessions are independent. "+
 			"non-trivial = a URR incarnation with reports in >= 2 different carriers, or a URR re-created after removal with >= 1 report in each incarnation; distinct by history",
 		"the oracle counts what is emitted; whether a report should have been emitted is C12's question",
@@ -34,6 +34,7 @@ type Ev struct {
 	URRs  []uint32       `json:"urrs,omitempty"`
 	Trig  uint32         `json:"trig,omitempty"`
 	Rules []stack.RuleOp `json:"rules,omitempty"`
+	N     int            `json:"n,omitempty"` // report: so many notifications in a row (the SMF answers none of them: they all stay outstanding)
 }
 
 type Case struct {
@@ -58,6 +59,7 @@ type stats struct {
 	multiCarrier bool
 	recreated    bool
 	reports      int
+	outstanding  int // report requests sent and never answered
 }
 
 // generator-side bookkeeping (assumes fault-free execution)
@@ -147,7 +149,12 @@ func gen(t *rapid.T) Case {
 			if k == "perio" {
 				trig = stack.TrigPERIO
 			}
-			evs = append(evs, Ev{Kind: "report", Sess: si, URRs: urrs, Trig: trig})
+			e := Ev{Kind: "report", Sess: si, URRs: urrs, Trig: trig}
+			if rapid.IntRange(0, 11).Draw(t, "burst") == 0 {
+				// a silent SMF: dozens of report requests outstanding at once (around the sizes of the server's internal queues, 64 and 128)
+				e.N = rapid.SampledFrom([]int{40, 63, 64, 65, 70, 130}).Draw(t, "burst_n")
+			}
+			evs = append(evs, e)
 		case "mod":
 			var rules []stack.RuleOp
 			touched := map[uint32]bool{}
@@ -350,16 +357,19 @@ func run(c Case) (v *vcore.Violation, stt stats) {
 			if !alive[ev.Sess] {
 				continue
 			}
-			o := r.Step(stack.Op{Kind: "report", Sess: ref[ev.Sess], URRs: ev.URRs, Trig: ev.Trig})
-			if o.Dead != nil {
-				return vcore.Violatef(o.Dead.Key, "event %d: UPF fatal exit: %.400s", i, o.Dead.Msg), stt
-			}
-			for _, s := range o.SRRs {
-				if x := observe(i, ev.Sess, "SessionReportRequest", s.Msg); x != nil {
-					return x, stt
+			for rep := 0; rep < max(ev.N, 1); rep++ {
+				o := r.Step(stack.Op{Kind: "report", Sess: ref[ev.Sess], URRs: ev.URRs, Trig: ev.Trig})
+				if o.Dead != nil {
+					return vcore.Violatef(o.Dead.Key, "event %d: UPF fatal exit: %.400s", i, o.Dead.Msg), stt
 				}
+				for _, s := range o.SRRs {
+					if x := observe(i, ev.Sess, "SessionReportRequest", s.Msg); x != nil {
+						return x, stt
+					}
+				}
+				r.Pending[0] = nil
+				stt.outstanding++
 			}
-			r.Pending[0] = nil
 		case "mod":
 			if !alive[ev.Sess] {
 				continue
@@ -421,6 +431,9 @@ func account(c Case, s stats) {
 	}
 	if s.recreated {
 		vcore.E.Class("urr_recreated_with_reports_in_both_incarnations")
+	}
+	if s.outstanding > 64 {
+		vcore.E.Class("more_than_64_report_requests_outstanding")
 	}
 	if s.multiCarrier || s.recreated {
 		vcore.E.NonTrivial(vcore.JSON(c))
